@@ -18,7 +18,6 @@ limitations under the License.
 
 #include <list>
 #include <map>
-#include <regex>
 #include <sstream>
 #include <stack>
 #include <utility>
@@ -211,15 +210,60 @@ std::string removeWhitespaceAroundTags(const std::string &in)
     return out;
 }
 
+/**
+ * @brief Remove any XML declarations from the string.
+ *
+ * Removes what the regular expression @c <\?xml[[:space:]]+version=.*\?> matches, i.e. from @c <?xml, white space
+ * and @c version= up to the last @c ?> on the same line. Done by hand rather than with a regular expression:
+ * the recursion depth of @c std::regex_replace grows with the length of the text that @c .* runs over, and a
+ * long line exhausts the stack.
+ */
+std::string removeXmlDeclarations(const std::string &in)
+{
+    static const std::string whitespace = " \t\n\v\f\r";
+    static const std::string start = "<?xml";
+    static const std::string version = "version=";
+    std::string out;
+    out.reserve(in.size());
+    size_t i = 0;
+    while (i < in.size()) {
+        size_t matchEnd = std::string::npos;
+        if (in.compare(i, start.size(), start) == 0) {
+            size_t j = i + start.size();
+            size_t k = in.find_first_not_of(whitespace, j);
+            if ((k != std::string::npos) && (k > j) && (in.compare(k, version.size(), version) == 0)) {
+                size_t from = k + version.size();
+                size_t lineEnd = in.find_first_of("\n\r", from);
+                if (lineEnd == std::string::npos) {
+                    lineEnd = in.size();
+                }
+                if (lineEnd >= from + 2) {
+                    size_t close = in.rfind("?>", lineEnd - 2);
+                    if ((close != std::string::npos) && (close >= from)) {
+                        matchEnd = close + 2;
+                    }
+                }
+            }
+        }
+        if (matchEnd == std::string::npos) {
+            out += in[i];
+            ++i;
+        } else {
+            i = matchEnd;
+        }
+    }
+
+    return out;
+}
+
 std::string Printer::PrinterImpl::printMath(const std::string &math)
 {
     static const std::string wrapElementName = "math_wrap_as_single_root_element";
-    static const std::regex xmlDeclaration(R"|(<\?xml[[:space:]]+version=.*\?>)|");
 
     XmlDocPtr xmlDoc = std::make_shared<XmlDoc>();
     xmlKeepBlanksDefault(0);
     // Remove any XML declarations from the string.
-    std::string normalisedMath = std::regex_replace(math, xmlDeclaration, "");
+    std::string normalisedMath = removeXmlDeclarations(math);
     xmlDoc->parse("<" + wrapElementName + ">" + normalisedMath + "</" + wrapElementName + ">");
     if (xmlDoc->xmlErrorCount() == 0) {
         auto rootNode = xmlDoc->rootNode();
